@@ -185,6 +185,7 @@ func read(in io.Reader, metadata *raft.SnapshotMeta, snap io.Writer) error {
 
 	// Look through the archive for the pieces we care about.
 	var shaBuffer bytes.Buffer
+	seen := make(map[string]struct{})
 	for {
 		hdr, err := archive.Next()
 		if err == io.EOF {
@@ -193,6 +194,7 @@ func read(in io.Reader, metadata *raft.SnapshotMeta, snap io.Writer) error {
 		if err != nil {
 			return fmt.Errorf("failed reading snapshot: %v", err)
 		}
+		seen[hdr.Name] = struct{}{}
 
 		switch hdr.Name {
 		case "meta.json":
@@ -230,6 +232,14 @@ func read(in io.Reader, metadata *raft.SnapshotMeta, snap io.Writer) error {
 	// Verify all the hashes.
 	if err := hl.DecodeAndVerify(&shaBuffer); err != nil {
 		return fmt.Errorf("failed checking integrity of snapshot: %v", err)
+	}
+
+	// Every expected member must actually be present: the hashes above are
+	// pre-registered, so a missing empty state.bin hashes like a present one.
+	for _, name := range []string{"meta.json", "state.bin", "SHA256SUMS"} {
+		if _, ok := seen[name]; !ok {
+			return fmt.Errorf("failed checking integrity of snapshot: missing %q", name)
+		}
 	}
 
 	return nil
